@@ -356,6 +356,40 @@ def _is_fixed_point(text: str) -> bool:
         return False
 
 
+def _line_flags(dec, path: str):
+    """For the target set and every explicit nested set along *path*: does its text span several lines?"""
+    from .model import PathError, PathUnspecified, parse_npath
+
+    try:
+        depth, segs = parse_npath(path)
+    except (PathError, PathUnspecified):
+        depth, segs = 0, []
+    data = dec.doc.data
+    node = dec.shape.target
+    flags = [b"\n" in data[node.start_byte:node.end_byte]]
+    lets = dec.shape.layers()
+    if depth and depth <= len(lets):
+        node = lets[depth - 1]  # scoped path: walk the nested sets of that let layer
+    for seg in segs[:-1]:
+        nxt = None
+        for c in node.named_children:
+            if c.type != "binding_set":
+                continue
+            for b in c.named_children:
+                if b.type != "binding":
+                    continue
+                ap = b.child_by_field_name("attrpath")
+                ex = b.child_by_field_name("expression")
+                names = [reader.decode_attr(x) for x in ap.named_children if x.type != "comment"]
+                if names == [seg] and ex.type in reader.SET_TYPES:
+                    nxt = ex
+        if nxt is None:
+            break
+        node = nxt
+        flags.append(b"\n" in data[node.start_byte:node.end_byte])
+    return flags
+
+
 def _roundtrip_neutral(text: str) -> bool:
     """Does parse/rebuild alone keep tokens and comment positions of *text*?"""
     import bisect
@@ -404,9 +438,8 @@ def oracle_c04(steps: list[Step], counters: dict | None = None) -> list[Violatio
         f = facts_of(st)
         f["kind"] = st.pred[1]
         f["canonical"] = canonical
-        tb_, ta_ = st.dec_before.shape.target, st.dec_out.shape.target
-        # the target set flips between one-line and multi-line layout (a member became / ceased to be multi-line)
-        f["layout_switch"] = (b"\n" in st.dec_before.doc.data[tb_.start_byte:tb_.end_byte]) != (b"\n" in st.dec_out.doc.data[ta_.start_byte:ta_.end_byte])
+        # a set on the addressed path flips between one-line and multi-line layout (a member became / ceased to be multi-line)
+        f["layout_switch"] = _line_flags(st.dec_before, st.op["path"]) != _line_flags(st.dec_out, st.op["path"])
         if f["layout_switch"] and canonical:
             # a value that becomes (or ceases to be) multi-line forces the one-line set that holds it into the
             # other layout; braces and separators then change by necessity: token and comment clauses only
